@@ -420,7 +420,8 @@ func readHeader(in *io.Reader) (manifest []byte, mac []byte, err error) {
 		*in = io.MultiReader(bytes.NewReader(extraBytes), *in)
 	}
 
-	return manifest, mac, nil
+	// The manifest and the MAC are slices of the pooled buffer, which is given back when this function returns and can then be filled by any other stream while the caller is still using them: return copies
+	return bytes.Clone(manifest), bytes.Clone(mac), nil
 }
 
 func writeOrClosePipe(w *io.PipeWriter, b []byte) bool {
